@@ -510,6 +510,7 @@ def make_module(I):
         return M.conj([M.eq_values(I, st, x, y) for x, y in zip(da, db)])
 
     reg("array_equal", _array_equal)
+    reg("shape", lambda I, st, v: tuple(asnd(I, st, v)[0]))
 
     def _isscalar(I, st, v):
         return is_number(v) or isinstance(v, str)
